@@ -300,6 +300,22 @@ pub fn extra_reader_scenarios(seed: u64) -> Vec<c09::Scn> {
         damaged: false,
     });
     v.push(c09::Scn {
+        label: "extras-and-comments-on-every-entry".into(),
+        bytes: build(&Spec {
+            entries: vec![
+                ESpec { name: b"first".to_vec(), method: 0, content: a.clone(), central_extra: crate::reference::zipbuild::extra_block(0xbeef, b"first central"), comment: b"first comment".to_vec(), ..Default::default() },
+                ESpec { name: b"dir/tagged.bin".to_vec(), method: 8, content: b.clone(), central_extra: crate::reference::zipbuild::extra_block(0xbeef, &[0x1c; 28]), local_extra: crate::reference::zipbuild::extra_block(0xcafe, b"local"), comment: b"last comment".to_vec(), ..Default::default() },
+            ],
+            comment: b"x".to_vec(),
+            ..Default::default()
+        })
+        .0,
+        pw: None,
+        stream: true,
+        aes: false,
+        damaged: false,
+    });
+    v.push(c09::Scn {
         label: "data-descriptors".into(),
         bytes: build(&Spec { entries: vec![ESpec { name: b"first".to_vec(), method: 8, content: a, dd: Dd::Sig32, ..Default::default() }, ESpec { name: b"second".to_vec(), method: 93, content: b, dd: Dd::NoSig32, ..Default::default() }], comment: b"dd".to_vec(), ..Default::default() }).0,
         pw: None,
